@@ -302,7 +302,7 @@ def explore(case, opts, rng, stats):
                     break
             base = dict(paths[-1].model) if paths else {}
             base.update(pt)
-            model = _perturb(base, pt, neg_paths, rng)
+            model = _perturb(base, pt, neg_paths, rng, list(tie_nodes.values()))
         pr, env = run_symbolic(case, model, rng, profile=(first and opts.profile),
                                allow_ties=getattr(case, "allow_ties", False))
         first = False
@@ -313,7 +313,7 @@ def explore(case, opts, rng, stats):
             for d in pr.ties:
                 tie_nodes[d.id] = d
             stats["tie_runs"] += 1
-            if stats["tie_runs"] > 50:
+            if stats["tie_runs"] > 40:
                 reason = "too many tie models"
                 break
             if not paths and not pending:
@@ -367,16 +367,16 @@ def _signvector_fallback(paths, sigs, extra, opts, stats):
     return ("unknown" if unknown else "unsat"), None
 
 
-def _perturb(base, pt, neg_paths, rng):
+def _perturb(base, pt, neg_paths, rng, tie_nodes=()):
     """move the solver's point slightly so that it is generic (no accidental ties), staying outside every
     explored path; equality-constrained hyper-parameters are left alone."""
-    for scale in (1e-2, 1e-4):
+    for scale in (1e-2, 1e-4, 1e-1, 1e-3, 1e-2, 1e-5, 1e-1, 1e-3):
         cand = dict(base)
         for k in pt:
             vi = CTX.vars.get(k)
             if vi is None or vi.kind == "hyper":
                 continue
-            v = pt[k] + scale * (rng.random() - 0.5)
+            v = pt[k] + scale * (rng.random() - 0.5) * max(1.0, abs(pt[k]) * 1e-2)
             if vi.lo is not None and v <= vi.lo:
                 continue
             if vi.hi is not None and v >= vi.hi:
@@ -388,6 +388,14 @@ def _perturb(base, pt, neg_paths, rng):
             if all(_holds(d, rel, cand, memo) for d, rel in path):
                 ok = False
                 break
+        if ok:
+            for d in tie_nodes:
+                try:
+                    if sc.evalf(d, cand, memo) == 0:
+                        ok = False
+                        break
+                except KeyError:
+                    pass
         if ok:
             return cand
     return dict(base)
@@ -510,7 +518,7 @@ def validate_path(case, pr, uses_rng):
         tol = 2e-3 if ("32" in pd or "16" in pd or out.notes.get("_any32")) else 1e-7
         scl = _scale(pv)
         for a, b in zip(sv, pv):
-            if a != a and b != b:
+            if (a != a and b != b) or a == b:
                 continue
             if not abs(a - b) <= tol * scl:
                 return False, "%s: value %r (shim) vs %r (plain)" % (k, a, b)
@@ -549,6 +557,7 @@ def decide_case(case, opts):
     """-> result dict (JSON-able)"""
     t0 = time.time()
     sc.CTX.reset()
+    sc.CTX.xr_axioms = bool(getattr(case, "xr_axioms", False))      # C09: ground axioms for exp/log atoms in every query
     rng = random.Random((opts.seed * 1000003) ^ (hash_sig(case.sig) & 0xFFFFFFF))
     stats = {"runs": 0, "coverage_queries": 0, "tie_runs": 0}
     q0, s0 = lw.STATS["queries"], lw.STATS["solver_s"]
